@@ -456,7 +456,10 @@ class BaseParser:
         dependencies = set()
         unprovided_fields = set()
         options = context.options
+        provided = {}
 
+        # 1. look every key of the data up once and gather the values given to each field,
+        # by the alias they came under (a field may be given under several of its aliases)
         for key, value in data.items():
             key = str(key)
             field = self.get_field(key)
@@ -465,8 +468,35 @@ class BaseParser:
                 if not unprovided(add_value):
                     addition[key] = add_value
                 continue
+            if key not in field.all_aliases:
+                # matched case-insensitively
+                key = key.lower()
+            if field in provided:
+                provided[field][key] = value
+            else:
+                provided[field] = {key: value}
 
+        # 2. parse the provided fields, choosing among several aliases exactly as
+        # field_first_parse does: in the order of field.all_aliases, comparing the raw values
+        for field, values in provided.items():
             name = field.attname if as_attname else field.name
+
+            if excluded_keys and name in excluded_keys:
+                continue
+
+            if len(values) == 1:
+                value, = values.values()
+            else:
+                value = unprovided
+                for alias in field.all_aliases:
+                    if alias in values:
+                        if unprovided(value):
+                            value = values[alias]
+                            if options.ignore_alias_conflicts:
+                                break
+                        elif values[alias] != value:
+                            context.handle_error(exc.AliasConflictError(item=name, value=values[alias]))
+                            break
 
             if field.is_no_input(value, options=options):
                 # no input field does not take input from __init__
@@ -474,15 +504,6 @@ class BaseParser:
                 default = field.get_default(options, defer=False)
                 if not unprovided(default):
                     result[name] = default
-                continue
-
-            if not options.ignore_alias_conflicts:
-                if name in result:  # or (excluded_keys and name in excluded_keys):
-                    if result[name] != value:
-                        context.handle_error(exc.AliasConflictError(item=name, value=value))
-                    continue
-
-            if excluded_keys and name in excluded_keys:
                 continue
 
             parsed = field.parse_value(value, context=context)
@@ -496,21 +517,21 @@ class BaseParser:
                     field.attr_dependencies if as_attname else field.dependencies
                 )
 
-        if not options.ignore_required:
-            # if required field is ignored. we do not need to check for required fields
-            for key, field in self.fields.items():
-                name = field.attname if as_attname else field.name
-                if name in result:
-                    continue
-                if excluded_keys and name in excluded_keys:
-                    continue
-                unprovided_fields.add(name)
-                if field.is_required(options=options):
-                    context.handle_error(exc.AbsenceError(item=name))
-                    continue
-                default = field.get_default(options, defer=False)
-                if not unprovided(default):
-                    result[name] = default
+        # 3. the fields that were not provided: required or default
+        # (is_required() is False when the required fields are ignored, the defaults still apply)
+        for key, field in self.fields.items():
+            if field in provided:
+                continue
+            name = field.attname if as_attname else field.name
+            if excluded_keys and name in excluded_keys:
+                continue
+            unprovided_fields.add(name)
+            if field.is_required(options=options):
+                context.handle_error(exc.AbsenceError(item=name))
+                continue
+            default = field.get_default(options, defer=False)
+            if not unprovided(default):
+                result[name] = default
 
         if dependencies:
             dependant = set(result)
